@@ -37,6 +37,14 @@ impl MetricLogWriter for DefaultMetricLogWriter {
             return Ok(());
         }
         if time_sec > self.latest_op_sec {
+            // Roll before the second is indexed (new day, or the previous seconds filled the file), so that
+            // the index entry of a second and all its lines are in one file and every file starts with
+            // an indexed second.
+            if self.is_new_day(self.latest_op_sec, time_sec) {
+                self.roll_to_next_file(ts)?;
+            } else {
+                self.roll_file_size_exceeded(ts)?;
+            }
             let pos = self
                 .cur_metric_file
                 .as_ref()
@@ -45,13 +53,9 @@ impl MetricLogWriter for DefaultMetricLogWriter {
                 .unwrap()
                 .seek(SeekFrom::Current(0))?;
             self.write_index(time_sec, pos)?;
-            if self.is_new_day(self.latest_op_sec, time_sec) {
-                self.roll_to_next_file(ts)?;
-            }
         }
         // Write and flush
         self.write_items_and_flush(items)?;
-        self.roll_file_size_exceeded(ts)?;
         if time_sec > self.latest_op_sec {
             // Update the latest time_sec.
             self.latest_op_sec = time_sec;
